@@ -10,7 +10,10 @@
 package main
 
 import (
+	"flag"
 	"fmt"
+	"os"
+	"runtime"
 	"strings"
 
 	rt "github.com/arnodel/golua/runtime"
@@ -123,6 +126,9 @@ func runCase(tier string, fam progfam.Fam, i uint64) core.Outcome {
 	}
 	ref := reflua.Run(p, rargs)
 	if ref.Unspec != "" || ref.Diverge {
+		if os.Getenv("VERIF_C01_WHY") != "" { // development aid: why was the case excluded
+			fmt.Fprintf(os.Stderr, "%s:%d skipped: unspec=%q diverge=%v\n", fam.Name, i, ref.Unspec, ref.Diverge)
+		}
 		return core.Outcome{Skipped: true}
 	}
 	var out core.Outcome
@@ -174,8 +180,30 @@ func runCase(tier string, fam progfam.Fam, i uint64) core.Outcome {
 	return out
 }
 
+// budget (seconds of wall time) after which a family stops itself and the
+// run is reported as not exhaustive.
+func budget(tier, fam string) int {
+	if tier != "thorough" {
+		return 300
+	}
+	switch fam {
+	case "F1-scope-closure":
+		return 1500
+	case "F3-jumps-free", "F3-jumps-nested", "F8-trees", "F2-call-protocol":
+		return 900
+	}
+	return 400
+}
+
 func main() {
 	core.Main(&core.Check{
+		Init: func(tier string) {
+			// 16 worker processes each with 16 GC threads oversubscribe the box:
+			// one mutator thread plus one for the collector is what a worker needs.
+			if f := flag.Lookup("worker"); f != nil && f.Value.String() == "true" {
+				runtime.GOMAXPROCS(2)
+			}
+		},
 		ID:    "C01",
 		Level: "model_checking",
 		Rule: "every program of families F1..F8 (token strings / mixed-radix products, simplest first) x >=2 (quick) / 6 (thorough) textual renderings, " +
@@ -204,7 +232,8 @@ func main() {
 						src, _ := prog.Render(p, prog.Plain)
 						return fmt.Sprintf("%s args=%s\n%s", p.Key, argsStr(p.Args), src)
 					},
-					HangSeconds: 60,
+					HangSeconds:   60,
+					BudgetSeconds: budget(tier, f.Name),
 				})
 			}
 			return fams
